@@ -67,7 +67,8 @@ def templates(tier):
     out += [('F5-unary', T('- a o1 b')), ('F5-unary', T('a o1 - b')), ('F5-unary', T('a o1 b ++')),
             ('F5-unary', T('a ++ o1 b')), ('F5-unary', T('- a ++')), ('F5-unary', T('! a o1 b o2 c')),
             ('F5-unary', T('- a ++ o1 - b --')), ('F5-unary', T('a o1 ! b o2 c')), ('F5-unary', T('- ( a o1 b )')),
-            ('F5-unary', T('( a o1 b ) ++'))]
+            ('F5-unary', T('( a o1 b ) ++')), ('F5-unary', T('- 5')), ('F5-unary', T('+ 5 - 2 * 4')), ('F5-unary', T('- 5 o1 b')),
+            ('F5-unary', T('a o1 - 1.5')), ('F5-unary', T('- 0')), ('F5-unary', T('! true')), ('F5-unary', T('- 5 ++')), ('F5-unary', T('- "s"'))]
     # F6: conditional
     out += [('F6-cond', T('a ? b : c')), ('F6-cond', T('a o1 b ? c : d')), ('F6-cond', T('a ? b o1 c : d')),
             ('F6-cond', T('a ? b : c o1 d')), ('F6-cond', T('a o1 b ? c o2 d : e o3 f')),
@@ -158,6 +159,39 @@ def harness(it, px, params):
     table = {o: (m.eval(P[o], model_completion=True).as_signed_long(), 'LEFT' if A[o] else 'RIGHT') for o in used}
     rec['table'] = table
     px.cover('parsed-' + fam)
+    if got == want and used and params.get('rereg') and fam in params['rereg']:
+        # history sensitivity: re-register every symbolic operator with fresh symbolic attributes and parse again
+        P2, A2 = {}, {}
+        infix2 = dict(rf.BUILTIN_INFIX)
+        for o in used:
+            p2 = px.bv('q_' + o, 32)
+            px.add(z3.And(p2 >= 1, p2 <= PMAX))
+            left2 = it.truth(px.bool('left2_' + o))
+            P2[o], A2[o] = p2, left2
+            infix2[o] = (p2, 'LEFT' if left2 else 'RIGHT', 'CALC')
+        for a, b in itertools.combinations(used, 2):
+            if A2[a] != A2[b]:
+                px.add(P2[a] != P2[b])
+        for o in used:
+            for name in set(toks):
+                if name in rf.BUILTIN_INFIX:
+                    bp, bassoc, _ = rf.BUILTIN_INFIX[name]
+                    if (bassoc == 'LEFT') != A2[o]:
+                        px.add(P2[o] != bp)
+        px.get_model()
+        for o in used:
+            it.call('register_infix_op', [mkstr(o), P2[o], Enum('InfixOpType', 0, 'CALC'), assoc_enum(A2[o]), ArcV(Cell(echo_handler(o), 'h'))])
+        r2 = api.parse(it, text)
+        got2 = render.ast_json(r2.value) if r2.kind == 'ok' else {'outcome': r2.kind}
+        want2 = rf.ref_parse(toks, infix2, gt, ge)
+        px.cover('reregistered-' + fam)
+        if got2 != want2:
+            m = px.get_model()
+            t1 = {o: (m.eval(P[o], model_completion=True).as_signed_long(), 'LEFT' if A[o] else 'RIGHT') for o in used}
+            t2 = {o: (m.eval(P2[o], model_completion=True).as_signed_long(), 'LEFT' if A2[o] else 'RIGHT') for o in used}
+            px.finding({'key': 'C02|misparse|after-reregistration|%s' % text, 'desc': 'after re-registering the operators with %s, `%s` still groups as under the old table %s' % (t2, text, t1),
+                        'text': text, 'table': t2, 'table_before': t1, 'family': fam, 'got': got2, 'want': want2, 'outcome': r2.kind, 'detail': None})
+        return rec
     if got != want:
         # does the mismatch need adjacent precedences?  ask for a witness without any
         cause = 'grouping'
@@ -194,8 +228,13 @@ def concrete_expect(toks, table):
     return rf.ref_parse(toks, infix)
 
 
-def scenario(text, table):
+def scenario(text, table, before=None):
     steps = []
+    if before:
+        for o, (p, a) in sorted(before.items()):
+            steps.append({'op': 'register_infix', 'name': o.encode().hex(), 'prec': int(p), 'type': 'CALC', 'assoc': a,
+                          'handler': {'h': 'echo', 'id': o}})
+        steps.append({'op': 'parse', 'hex': text.encode().hex(), 'want': ['ast', 'expr']})
     for o, (p, a) in sorted(table.items()):
         steps.append({'op': 'register_infix', 'name': o.encode().hex(), 'prec': int(p), 'type': 'CALC', 'assoc': a,
                       'handler': {'h': 'echo', 'id': o}})
@@ -206,7 +245,7 @@ def scenario(text, table):
 def run(ctx):
     tpls = templates(ctx.tier)
     params = {'templates': tpls, 'seed': ctx.seed, 'timeout_ms': 10000 if ctx.tier == 'quick' else 60000,
-              'step_limit': 400000}
+              'step_limit': 400000, 'rereg': ('F1-chain',) if ctx.tier == 'quick' else ('F1-chain', 'F2-mixed', 'F4-not')}
     eng = ctx.engine('dev')
     recs, summ = ex.explore(eng, harness, params, prepare=prepare)
     # concrete built-in sweep (side check: registry contents == documented table)
@@ -254,7 +293,8 @@ def judge(ctx, recs, summ, params, extra_findings, n_sweep):
         f = fs[0]
         toks = f['text'].split()
         table = {o: (int(p), a) for o, (p, a) in f['table'].items()}
-        sc = scenario(f['text'], table)
+        before = {o: (int(p), a) for o, (p, a) in f['table_before'].items()} if f.get('table_before') else None
+        sc = scenario(f['text'], table, before)
         want = concrete_expect(toks, table)
         obs = ctx.native(sc, 'dev')
         obs_r = ctx.native(sc, 'release')
